@@ -990,8 +990,11 @@ fn random_step(w: &World, rng: &mut Rng) -> Option<Step> {
             }
         }
         66..=85 => {
-            let tag = rng.pick(&TAGS).to_string();
-            match rng.below(5) {
+            // updates and deletes mostly aim at tags that exist (otherwise they only exercise the error paths)
+            let existing: Vec<String> = w.tags.keys().cloned().collect();
+            let kind = rng.below(5);
+            let tag = if kind >= 2 && !existing.is_empty() && rng.chance(3, 4) { rng.pick(&existing).clone() } else { rng.pick(&TAGS).to_string() };
+            match kind {
                 0..=1 => {
                     let l = rng.pick(&branchable).clone();
                     let version = if rng.chance(1, 8) { w.locs[&l].latest + 5 } else { pick_version(rng, &l) };
